@@ -23,6 +23,7 @@ type solver struct {
 	depth   int
 	decl    map[string]bool
 	facts   map[string]int // assertions currently on the stack (text -> multiplicity)
+	fpN     int            // how many of them contain a floating-point term
 	Saved   int            // feasibility questions answered from the facts without a query
 	Queries int
 	Time    time.Duration
@@ -89,6 +90,9 @@ func (s *solver) pop() {
 		if s.facts[e]--; s.facts[e] <= 0 {
 			delete(s.facts, e)
 		}
+		if isFPTerm(e) {
+			s.fpN--
+		}
 	}
 	s.stack = s.stack[:len(s.stack)-1]
 	s.send("(pop 1)")
@@ -99,9 +103,14 @@ func (s *solver) assert(e string) {
 }
 
 // addFact records e, and the conjuncts of a top-level conjunction, as facts of the current level.
+func isFPTerm(e string) bool { return strings.Contains(e, "(fp.") || strings.Contains(e, "to_fp") }
+
 func (s *solver) addFact(e string) {
 	s.stack[len(s.stack)-1] = append(s.stack[len(s.stack)-1], e)
 	s.facts[e]++
+	if isFPTerm(e) {
+		s.fpN++
+	}
 	if strings.HasPrefix(e, "(and ") {
 		for _, a := range sexprArgs(e) {
 			s.addFact(a)
@@ -247,6 +256,21 @@ func (s *solver) check() string {
 		s.Time += time.Since(t0)
 		return r
 	}
+	if s.fpOnStack() {
+		// a path condition with floating-point terms: z3's incremental core is some 40 times slower on those than
+		// a fresh process given the whole script
+		bin := os.Getenv("SYMGO_ONESHOT")
+		if bin == "" {
+			os.Setenv("SYMGO_ONESHOT", "z3")
+		}
+		r, _ := s.runOneShot("")
+		if bin == "" {
+			os.Unsetenv("SYMGO_ONESHOT")
+		}
+		s.Queries++
+		s.Time += time.Since(t0)
+		return r
+	}
 	s.send("(check-sat)")
 	s.w.Flush()
 	line, err := s.out.ReadString('\n')
@@ -263,7 +287,12 @@ func (s *solver) values(names []string) string {
 	if len(names) == 0 {
 		return "()"
 	}
-	if s.oneshot {
+	if s.oneshot || s.fpOnStack() {
+		bin := os.Getenv("SYMGO_ONESHOT")
+		if bin == "" {
+			os.Setenv("SYMGO_ONESHOT", "z3")
+			defer os.Unsetenv("SYMGO_ONESHOT")
+		}
 		_, m := s.runOneShot("(get-value (" + strings.Join(names, " ") + "))\n")
 		return m
 	}
@@ -298,3 +327,6 @@ func (s *solver) close() {
 	s.in.Close()
 	s.cmd.Wait()
 }
+
+// fpOnStack: does an assertion of the current path condition contain a floating-point term?
+func (s *solver) fpOnStack() bool { return s.fpN > 0 }
